@@ -138,8 +138,40 @@ def finish(prop, tier, seed, results, t0, extra_cov=None, level="proof", checker
             seen_known.add(key)
             lines.append("KNOWN-FINDING: property=%s %s [%s]" % (prop, w, o["id"]))
     nviol = 0
+    # a refuted obligation without a model-specific replay falls back to the property-level native oracle
+    # (contracts/Cxx.py: FALLBACK_REPLAY): the replay then shows a failing input of the property on the real
+    # code if the oracle's family contains one; it is not the solver's counter-model, and the file says so
+    fallback = None
+    try:
+        import importlib
+        fallback = getattr(importlib.import_module("contracts.%s" % prop), "FALLBACK_REPLAY", None)
+    except Exception:  # noqa
+        fallback = None
+    fb_cache = {}
     for o in violations:
+        if not o.get("replay") and fallback and not o.get("bounded"):
+            o["replay"] = dict(fallback)
+            o["note"] = ((o.get("note") or "") + " [replay: property-level native oracle, not the solver's counter-model]").strip()
+            o["_fallback"] = True
         path = write_replay(prop, o, tree_info)
+        if o.get("_fallback"):
+            key = json.dumps(fallback, sort_keys=True, default=str)
+            if key in fb_cache:
+                with open(path) as f_:
+                    body_ = json.load(f_)
+                body_["reproduced"], body_["observed"] = fb_cache[key]
+                with open(path, "w") as f_:
+                    json.dump(body_, f_, indent=1, default=str)
+                suffix = "" if body_["reproduced"] else " no-failing-input-found"
+                nviol += 1
+                lines.append("VIOLATION property=%s replay=%s obligation=%s%s" % (prop, path, o["id"], suffix))
+                continue
+            body = run_replay(path)
+            fb_cache[key] = (body.get("reproduced"), body.get("observed"))
+            suffix = "" if body.get("reproduced") else " no-failing-input-found"
+            nviol += 1
+            lines.append("VIOLATION property=%s replay=%s obligation=%s%s" % (prop, path, o["id"], suffix))
+            continue
         body = run_replay(path) if o.get("replay") else None
         suffix = ""
         if body is None or not body.get("reproduced"):
